@@ -18,6 +18,39 @@ class Loop:
     pass
 
 
+def _er_role(body, fr):
+    """role of a (possibly renamed) method of EntityReactors by signature: `(&self, EntityReactionType) -> usize` is the
+    per-kind count, `(&self, EntityReactionType) -> impl Iterator` the per-kind iteration"""
+    prog = getattr(body, "prog", None)
+    if prog is None or fr is None:
+        return None
+    cb = prog.resolve_local(fr)
+    if cb is None or lib.impl_self_name(cb) != "EntityReactors" or cb.arg_count != 2:
+        return None
+    if not cb.local_ty(1).startswith("&") or cb.local_ty(1).startswith("&mut") or not cb.local_ty(2).endswith("::EntityReactionType"):
+        return None
+    ret = cb.local_ty(0)
+    if ret == "usize":
+        return "count"
+    if "Iterator" in ret or "iter::" in ret:
+        return "iter"
+    return None
+
+
+def _thin_driver_wrapper(body, fr):
+    """a small crate method that only forwards to a driver (`fn pop_pending(&self) -> Option<E> { self.rx.try_recv().ok() }`,
+    whatever it is called)"""
+    prog = getattr(body, "prog", None)
+    if prog is None:
+        return False
+    cb = prog.resolve_local(fr)
+    if cb is None or cb.n > 16 or not cb.local_ty(0).startswith("core::option::Option<"):
+        return False
+    inner = [lib.tail(mir.fn_name(f2), 1) for _, _, f2 in cb.iter_calls() if f2 is not None]
+    drv = [n for n in inner if n in DRIVERS]
+    return len(drv) == 1 and all(n in DRIVERS or n in ("ok", "deref", "deref_mut", "as_ref", "as_mut") for n in inner)
+
+
 def find_loops(body):
     """natural loops with their driver call (Iterator::next / try_recv / pop_front matched with an exit arm)"""
     out = []
@@ -30,7 +63,9 @@ def find_loops(body):
             if t["k"] != "call":
                 continue
             fr = op_fn(t["func"])
-            if fr is None or lib.tail(mir.fn_name(fr), 1) not in DRIVERS:
+            if fr is None:
+                continue
+            if lib.tail(mir.fn_name(fr), 1) not in DRIVERS and not _thin_driver_wrapper(body, fr):
                 continue
             if not all(body.dominates(b, x) for x in backs):
                 continue
@@ -175,7 +210,7 @@ def _local_source(body, l, depth, env):
                     res.add(("table", fsrc[2], None, _key_of(body, t["args"][1])))
                 else:
                     res.add(None)
-            elif t2 in ("EntityReactors::iter_rtype", "EntityReactors::count"):
+            elif t2 in ("EntityReactors::iter_rtype", "EntityReactors::count") or _er_role(body, fr) in ("count", "iter"):
                 src = _place_source(body, op_place(t["args"][0]), depth + 1, env) if op_place(t["args"][0]) else None
                 ent = src[1] if src and src[0] == "entity_component" else ("?",)
                 res.add(("entity", ent, _rtype_key(body, t["args"][1])))
@@ -297,7 +332,7 @@ def len_sources(prog, body, op, depth=0):
             return None
         return _closure_len(prog, cb, recv_src, body, caps)
     if t1 in ("len", "count"):
-        if t2 == "EntityReactors::count":
+        if t2 == "EntityReactors::count" or _er_role(body, fr) == "count":
             src = coll_source(body, {"copy": {"l": l, "p": []}})
             return [src] if src else None
         src = coll_source(body, t["args"][0])
@@ -320,7 +355,7 @@ def _closure_len(prog, cb, param_src, parent, caps):
             recv_is_param = all(o[0] == "arg" and o[1] == 2 for o in origins(cb, t["args"][0]))
             if not recv_is_param or param_src is None:
                 return None
-            if t2 == "EntityReactors::count":
+            if t2 == "EntityReactors::count" or _er_role(cb, fr) == "count":
                 ent = param_src[1] if param_src[0] == "entity_component" else ("?",)
                 # rtype comes from a capture: map back to the parent's operand
                 rk = None
